@@ -169,7 +169,7 @@ Definition decode (op a b now : Z) : option wop :=
   | 20 => Some (WAdhoc 5 a b)
   | 21 => Some (WAdhoc 6 a b)
   | 22 => Some (WStore (OSetConfig (a mod 4)))
-  | 15 => Some (WRenderBadCtx a now (negb (b =? 0)))
+  | 15 => Some (WRenderBadCtx a now (b mod 4 =? 1))
   | _ => None
   end.
 
